@@ -20,6 +20,7 @@ import sys
 import time
 from urllib.parse import quote, urlsplit
 
+from bcheck import history
 from bcheck.common import Collector, args, run_sharded, call
 from bcheck import ref_c15 as ref
 
@@ -457,6 +458,8 @@ CACHE_PREFIXES = [
     "https://a-com.cdn.ampproject.org/v/", "http://cdn.ampproject.org/c/s/", "https://bc.marfeelcache.com/amp/",
     "https://bc.marfeel.com/", "http://a-com.cdn.AMPPROJECT.org/C/S/", "a-com.cdn.ampproject.org/c/s/",
     "http://a-com.cdn.ampproject.org/c/s/bc.marfeel.com/", "http://bc-marfeelcache-com.cdn.ampproject.org/c/s/bc.marfeelcache.com/amp/",
+    # a host can come with a port
+    "https://a-com.cdn.ampproject.org:8080/v/s/", "http://bc.marfeel.com:80/", "https://a-com.cdn.ampproject.org:/c/",
     # look-alikes: no leading dot, other letter, marker inside the query
     "https://ampproject.org/c/", "https://a-com.cdn.ampproject.org/x/", "https://xbc.marfeel.com/",
     "https://a.com/?x=.ampproject.org/c/s/", "https://a.com/?u=https%3A%2F%2Fa-com.cdn.ampproject.org%2Fc%2Fs%2F",
@@ -616,6 +619,8 @@ def report(col, viols):
 def main():
     a = args("C15")
     col = Collector("C15", a.tier, a.seed)
+    if a.replay and history.replayed(a, col, "C15"):
+        return
     if a.replay:
         rp = json.load(open(a.replay))
         inp = rp["input"]
@@ -687,6 +692,7 @@ def main():
         "is in bounds.inputs_with_redirect_parameter_or_cache_marker"
         % (bounds["token_sequence_length"], len(bounds["token_alphabet"]), bounds["token_alphabet"], len(SHAPES), len(KEYS_ALL),
            len(LEAVES), len(CACHE_PREFIXES), bounds["random_inputs"], len(SOUP)))
+    history.run(col, "C15", a.tier == "quick")
     col.dump(a.out)
 
 
